@@ -48,10 +48,11 @@ type file struct {
 }
 
 type FS struct {
-	mu    sync.Mutex
-	files map[string]*file
-	dirs  map[string]bool
-	Log   []Op
+	TempSeq int // counter behind the CreateTemp shim
+	mu      sync.Mutex
+	files   map[string]*file
+	dirs    map[string]bool
+	Log     []Op
 	// OnOp is called before every mutating operation (scheduling point / fault decision).
 	// A non-nil error is returned to the caller and the operation does not happen;
 	// short > 0 makes a write persist only its first short bytes and fail.
